@@ -173,7 +173,7 @@ func (ip *Interp) opaqueInvoke(recv Iface, method string, args []Value, cc *ssa.
 		case "Done":
 			return o.done
 		case "Err":
-			ip.schedPoint("ctx.Err")
+			ip.schedPoint("ctx.Err", o.done)
 			if o.cancelled {
 				return ip.ctxCanceledErr()
 			}
@@ -389,6 +389,7 @@ func init() {
 	}
 	V["Quiesce"] = func(ip *Interp, fn *ssa.Function, args []Value) Value {
 		g := ip.cur
+		g.pending = &pendingOp{all: true}
 		ip.block(func() bool { return len(ip.runnable(g)) == 0 }, "quiesce")
 		return nil
 	}
@@ -458,7 +459,7 @@ func init() {
 	// ----- sync.Mutex / RWMutex -----
 	lock := func(ip *Interp, fn *ssa.Function, args []Value) Value {
 		c := recvCell(ip, args)
-		ip.schedPoint("Lock")
+		ip.schedPoint("Lock", c)
 		ip.block(func() bool { return ip.stateInt(c) == 0 }, "Mutex.Lock")
 		ip.setStateInt(c, -1)
 		return nil
@@ -469,7 +470,7 @@ func init() {
 			ip.goPanic("sync: unlock of unlocked mutex")
 		}
 		ip.setStateInt(c, 0)
-		ip.schedPoint("Unlock")
+		ip.schedPoint("Unlock", c)
 		return nil
 	}
 	I["(*sync.Mutex).Lock"] = lock
@@ -478,7 +479,7 @@ func init() {
 	I["(*sync.RWMutex).Unlock"] = unlock
 	I["(*sync.Mutex).TryLock"] = func(ip *Interp, fn *ssa.Function, args []Value) Value {
 		c := recvCell(ip, args)
-		ip.schedPoint("TryLock")
+		ip.schedPoint("TryLock", c)
 		if ip.stateInt(c) == 0 {
 			ip.setStateInt(c, -1)
 			return ip.tb.BoolConst(true)
@@ -487,7 +488,7 @@ func init() {
 	}
 	I["(*sync.RWMutex).RLock"] = func(ip *Interp, fn *ssa.Function, args []Value) Value {
 		c := recvCell(ip, args)
-		ip.schedPoint("RLock")
+		ip.schedPoint("RLock", c)
 		ip.block(func() bool { return ip.stateInt(c) >= 0 }, "RWMutex.RLock")
 		ip.setStateInt(c, ip.stateInt(c)+1)
 		return nil
@@ -498,7 +499,7 @@ func init() {
 			ip.goPanic("sync: RUnlock of unlocked RWMutex")
 		}
 		ip.setStateInt(c, ip.stateInt(c)-1)
-		ip.schedPoint("RUnlock")
+		ip.schedPoint("RUnlock", c)
 		return nil
 	}
 	// ----- sync.WaitGroup -----
@@ -508,7 +509,7 @@ func init() {
 		if !d.isConst {
 			ip.unsupported("symbolic WaitGroup delta")
 		}
-		ip.schedPoint("WaitGroup.Add")
+		ip.schedPoint("WaitGroup.Add", c)
 		n := ip.stateInt(c) + sext(d.bv, d.sort.W)
 		if n < 0 {
 			ip.goPanic("sync: negative WaitGroup counter")
@@ -518,7 +519,7 @@ func init() {
 	}
 	I["(*sync.WaitGroup).Done"] = func(ip *Interp, fn *ssa.Function, args []Value) Value {
 		c := recvCell(ip, args)
-		ip.schedPoint("WaitGroup.Done")
+		ip.schedPoint("WaitGroup.Done", c)
 		n := ip.stateInt(c) - 1
 		if n < 0 {
 			ip.goPanic("sync: negative WaitGroup counter")
@@ -528,37 +529,37 @@ func init() {
 	}
 	I["(*sync.WaitGroup).Wait"] = func(ip *Interp, fn *ssa.Function, args []Value) Value {
 		c := recvCell(ip, args)
-		ip.schedPoint("WaitGroup.Wait")
+		ip.schedPoint("WaitGroup.Wait", c)
 		ip.block(func() bool { return ip.stateInt(c) == 0 }, "WaitGroup.Wait")
 		return nil
 	}
 	// ----- sync/atomic primitives -----
 	for _, ty := range []string{"Int32", "Int64", "Uint32", "Uint64", "Uintptr"} {
 		I["sync/atomic.Load"+ty] = func(ip *Interp, fn *ssa.Function, args []Value) Value {
-			ip.schedPoint("atomic.Load")
+			ip.schedPoint("atomic.Load", args[0].(Ptr).c)
 			return ip.load(args[0].(Ptr).c)
 		}
 		I["sync/atomic.Store"+ty] = func(ip *Interp, fn *ssa.Function, args []Value) Value {
-			ip.schedPoint("atomic.Store")
+			ip.schedPoint("atomic.Store", args[0].(Ptr).c)
 			ip.store(args[0].(Ptr).c, args[1])
 			return nil
 		}
 		I["sync/atomic.Add"+ty] = func(ip *Interp, fn *ssa.Function, args []Value) Value {
-			ip.schedPoint("atomic.Add")
+			ip.schedPoint("atomic.Add", args[0].(Ptr).c)
 			c := args[0].(Ptr).c
 			n := ip.tb.BVBin("bvadd", ip.load(c).(*Term), termArg(args[1]))
 			ip.store(c, n)
 			return n
 		}
 		I["sync/atomic.Swap"+ty] = func(ip *Interp, fn *ssa.Function, args []Value) Value {
-			ip.schedPoint("atomic.Swap")
+			ip.schedPoint("atomic.Swap", args[0].(Ptr).c)
 			c := args[0].(Ptr).c
 			old := ip.load(c)
 			ip.store(c, args[1])
 			return old
 		}
 		I["sync/atomic.CompareAndSwap"+ty] = func(ip *Interp, fn *ssa.Function, args []Value) Value {
-			ip.schedPoint("atomic.CAS")
+			ip.schedPoint("atomic.CAS", args[0].(Ptr).c)
 			c := args[0].(Ptr).c
 			if ip.branch(ip.tb.Eq(ip.load(c).(*Term), termArg(args[1]))) {
 				ip.store(c, args[2])
@@ -567,14 +568,14 @@ func init() {
 			return ip.tb.BoolConst(false)
 		}
 		I["sync/atomic.And"+ty] = func(ip *Interp, fn *ssa.Function, args []Value) Value {
-			ip.schedPoint("atomic.And")
+			ip.schedPoint("atomic.And", args[0].(Ptr).c)
 			c := args[0].(Ptr).c
 			old := ip.load(c).(*Term)
 			ip.store(c, ip.tb.BVBin("bvand", old, termArg(args[1])))
 			return old
 		}
 		I["sync/atomic.Or"+ty] = func(ip *Interp, fn *ssa.Function, args []Value) Value {
-			ip.schedPoint("atomic.Or")
+			ip.schedPoint("atomic.Or", args[0].(Ptr).c)
 			c := args[0].(Ptr).c
 			old := ip.load(c).(*Term)
 			ip.store(c, ip.tb.BVBin("bvor", old, termArg(args[1])))
@@ -582,11 +583,11 @@ func init() {
 		}
 	}
 	I["sync/atomic.LoadPointer"] = func(ip *Interp, fn *ssa.Function, args []Value) Value {
-		ip.schedPoint("atomic.LoadPointer")
+		ip.schedPoint("atomic.LoadPointer", args[0].(Ptr).c)
 		return ip.load(args[0].(Ptr).c)
 	}
 	I["sync/atomic.StorePointer"] = func(ip *Interp, fn *ssa.Function, args []Value) Value {
-		ip.schedPoint("atomic.StorePointer")
+		ip.schedPoint("atomic.StorePointer", args[0].(Ptr).c)
 		ip.store(args[0].(Ptr).c, args[1])
 		return nil
 	}
@@ -603,7 +604,7 @@ func init() {
 	}
 	anyZero := Iface{}
 	I["(*sync.Map).Load"] = func(ip *Interp, fn *ssa.Function, args []Value) Value {
-		ip.schedPoint("sync.Map.Load")
+		ip.schedPoint("sync.Map.Load", recvCell(ip, args))
 		v, ok := ip.mapGet(smap(ip, args), args[1])
 		if !ok {
 			return Tuple{anyZero, ip.tb.BoolConst(false)}
@@ -611,12 +612,12 @@ func init() {
 		return Tuple{v, ip.tb.BoolConst(true)}
 	}
 	I["(*sync.Map).Store"] = func(ip *Interp, fn *ssa.Function, args []Value) Value {
-		ip.schedPoint("sync.Map.Store")
+		ip.schedPoint("sync.Map.Store", recvCell(ip, args))
 		ip.mapSet(smap(ip, args), args[1], args[2])
 		return nil
 	}
 	I["(*sync.Map).LoadOrStore"] = func(ip *Interp, fn *ssa.Function, args []Value) Value {
-		ip.schedPoint("sync.Map.LoadOrStore")
+		ip.schedPoint("sync.Map.LoadOrStore", recvCell(ip, args))
 		m := smap(ip, args)
 		if v, ok := ip.mapGet(m, args[1]); ok {
 			return Tuple{v, ip.tb.BoolConst(true)}
@@ -625,7 +626,7 @@ func init() {
 		return Tuple{args[2], ip.tb.BoolConst(false)}
 	}
 	I["(*sync.Map).LoadAndDelete"] = func(ip *Interp, fn *ssa.Function, args []Value) Value {
-		ip.schedPoint("sync.Map.LoadAndDelete")
+		ip.schedPoint("sync.Map.LoadAndDelete", recvCell(ip, args))
 		m := smap(ip, args)
 		if v, ok := ip.mapGet(m, args[1]); ok {
 			ip.mapDelete(m, args[1])
@@ -634,12 +635,12 @@ func init() {
 		return Tuple{anyZero, ip.tb.BoolConst(false)}
 	}
 	I["(*sync.Map).Delete"] = func(ip *Interp, fn *ssa.Function, args []Value) Value {
-		ip.schedPoint("sync.Map.Delete")
+		ip.schedPoint("sync.Map.Delete", recvCell(ip, args))
 		ip.mapDelete(smap(ip, args), args[1])
 		return nil
 	}
 	I["(*sync.Map).Swap"] = func(ip *Interp, fn *ssa.Function, args []Value) Value {
-		ip.schedPoint("sync.Map.Swap")
+		ip.schedPoint("sync.Map.Swap", recvCell(ip, args))
 		m := smap(ip, args)
 		if v, ok := ip.mapGet(m, args[1]); ok {
 			ip.mapSet(m, args[1], args[2])
@@ -649,7 +650,7 @@ func init() {
 		return Tuple{anyZero, ip.tb.BoolConst(false)}
 	}
 	I["(*sync.Map).Range"] = func(ip *Interp, fn *ssa.Function, args []Value) Value {
-		ip.schedPoint("sync.Map.Range")
+		ip.schedPoint("sync.Map.Range", recvCell(ip, args))
 		m := smap(ip, args)
 		it := &rangeIter{m: m, visited: map[*mapEntry]bool{}}
 		for {
@@ -675,7 +676,7 @@ func init() {
 		}
 	}
 	I["(*sync.Map).Clear"] = func(ip *Interp, fn *ssa.Function, args []Value) Value {
-		ip.schedPoint("sync.Map.Clear")
+		ip.schedPoint("sync.Map.Clear", recvCell(ip, args))
 		smap(ip, args).entries = nil
 		return nil
 	}
@@ -723,7 +724,7 @@ func init() {
 		return ip.timeNowValue(ext)
 	}
 	I["time.Sleep"] = func(ip *Interp, fn *ssa.Function, args []Value) Value {
-		ip.schedPoint("time.Sleep")
+		ip.schedPoint("time.Sleep", fn)
 		return nil
 	}
 	I["time.Since"] = func(ip *Interp, fn *ssa.Function, args []Value) Value {
@@ -1056,7 +1057,7 @@ func init() {
 		return &Str{s: fmt.Sprintf("00000000-0000-4000-8000-%012d", ip.uuidN)}
 	}
 	I["runtime.Gosched"] = func(ip *Interp, fn *ssa.Function, args []Value) Value {
-		ip.schedPoint("Gosched")
+		ip.schedPoint("Gosched", fn)
 		return nil
 	}
 	I["runtime.NumGoroutine"] = func(ip *Interp, fn *ssa.Function, args []Value) Value {
